@@ -350,6 +350,13 @@ impl<'a> PlanBuilder<'a> {
 
         debug_assert!(!frontier.is_empty(), "initial frontier is empty");
 
+        // Operators which have already been added to the output plan.
+        //
+        // An operator can become ready before all the operators that produce
+        // its inputs have run, if some of those inputs were supplied as inputs
+        // to the plan. It must not be scheduled again when the producers run.
+        let mut scheduled: FxHashSet<NodeId> = FxHashSet::default();
+
         // Loop while we still have operators to compute.
         while !frontier.is_empty() {
             // Choose an operator to execute next and add it to the plan.
@@ -363,6 +370,7 @@ impl<'a> PlanBuilder<'a> {
                 .unwrap_or(0);
             let (next_op_id, op_node) = frontier.remove(op_pos);
             output_plan.push(next_op_id);
+            scheduled.insert(next_op_id);
 
             // Mark the operator's outputs as computed.
             resolved_values.extend(op_node.output_ids().iter().filter_map(|id| *id));
@@ -377,7 +385,9 @@ impl<'a> PlanBuilder<'a> {
                     continue;
                 };
                 for (candidate_op_id, candidate_op) in deps {
-                    if frontier.iter().any(|(op_id, _)| op_id == candidate_op_id) {
+                    if scheduled.contains(candidate_op_id)
+                        || frontier.iter().any(|(op_id, _)| op_id == candidate_op_id)
+                    {
                         continue;
                     }
 
